@@ -96,7 +96,7 @@ func c03Specs(tier string, seed int) []c03Spec {
 	// ... and the real program (dispatcher included) built with the race detector on a batch file
 	out = append(out, c03Spec{Kind: "race-binary", Conc: 3}, c03Spec{Kind: "race-binary", Conc: 6})
 	// a project without configuration file (the first run generates one on disk): both orders of two lines with different overrides
-	out = append(out, c03Spec{Kind: "noconfig"})
+	out = append(out, c03Spec{Kind: "noconfig"}, c03Spec{Kind: "refolder"})
 	// the same line again and again in fresh sessions (the runtime randomises map iteration per execution), with the
 	// batch-line arguments in every order
 	for _, n := range []string{"A", "B", "C", "As"} {
@@ -289,6 +289,50 @@ func c03Run(raw json.RawMessage, c *mc.Ctx) {
 			}
 		}
 		c.Outcome("noconfig-identical")
+	case "refolder":
+		// the library's own file writer, one result folder used by several runs with the same ids: what a run leaves in
+		// its files must not depend on what an earlier run (of this or an earlier session) had written under that name
+		common := "project=p2 plotNr=1 fcode=W parameter=par SoilFileExtension=csv WeatherRootFolder=./weather WeatherFolder=w InitSelection=1 StartYear=2001 AnnualOutputDate=0105 " +
+			"AutoSowingHarvest=0 AutoFertilization=0 AutoIrrigation=0 AutoHarvest=0 OutputIntervall=1 ResultFileFormat=1 ManagementEvents=1 LeachingDepth=15 poligonID=Y"
+		lines := map[string]string{"long": common + " EndDate=30062001", "short": common + " EndDate=08052001", "weekly": common + " EndDate=30062001 OutputIntervall=7"}
+		runOrder := func(order []string) map[string]string {
+			wr := scratchRoot()
+			defer os.RemoveAll(wr)
+			buildBatchWorld(wr, 90)
+			dir := filepath.Join(wr, "out", "shared")
+			out := map[string]string{}
+			for _, n := range order {
+				r := proj.RunDisk(wr, append(strings.Fields(lines[n]), "resultfolder="+dir), dir)
+				c.Trace(1)
+				c.Transition(1)
+				if !r.Success {
+					out[n] = "FAILED: " + r.Err + r.Panic
+				} else {
+					out[n] = c03AllFiles(r)
+				}
+			}
+			return out
+		}
+		alone := map[string]string{}
+		for n := range lines {
+			alone[n] = runOrder([]string{n})[n]
+			if strings.HasPrefix(alone[n], "FAILED") || len(alone[n]) < 200 {
+				mc.HarnessError("C03 refolder: line %s alone: %.300s", n, alone[n])
+			}
+		}
+		for _, order := range [][]string{{"long", "short"}, {"short", "long"}, {"long", "weekly"}, {"weekly", "short"}, {"long", "short", "weekly"}, {"short", "short"}} {
+			got := runOrder(order)
+			last := order[len(order)-1]
+			c.Eval(1)
+			h := mc.NewHasher().S("refolder").S(strings.Join(order, ",")).Sum()
+			c.State(h)
+			c.NonTrivial(h)
+			if got[last] != alone[last] {
+				c.Violate("result-depends-on-earlier-content-of-the-result-folder", fmt.Sprintf("result folder used by the runs %v in turn (same ids): the files of the last run differ from the same line in a fresh folder: %s", order, strings.Replace(c18Diff(alone[last], got[last], nil), "edited file gives", "fresh folder gives", 1)), nil)
+				return
+			}
+		}
+		c.Outcome("refolder-identical")
 	case "repeat":
 		w := buildBatchWorld(root, 45)
 		extra := []string{"c_MAXAMAX=44", "c_TSUM_1=160", "c_TSUM_2=300", "c_KC_3=1.1", "c_PRO_2_1=0.3", "c_PRO_2_2=0.7", "NDeposition=33", "Fertilization=80", "KcFactorBareSoil=0.5"}
